@@ -163,11 +163,18 @@ Inductive out :=
 
 Record sys := mkS { s_win : win; s_floor : N }.
 
-Definition step (tree : index) (W : Z) (s : sys) (o : op) : sys * out :=
+(* the block verification function of the component under study, as a parameter: C09 uses
+   VerifyExpiryReplayProtection alone ([vf_replay]); DSMR's Node.Verify wraps it in header and
+   expiry checks (Model/DsmrVerify.v).  Arguments: tree (to find the parent block handed to
+   Verify by the engine), chain index, window, W, block. *)
+Definition vfun := index -> index -> win -> Z -> block -> N.
+Definition vf_replay : vfun := fun _ idx w W b => verify_replay idx w W b.
+
+Definition step (vf : vfun) (tree : index) (W : Z) (s : sys) (o : op) : sys * out :=
   match o with
   | OVerify b =>
       match tree b with
-      | Some blk => (s, OutV (verify_replay (idx_of tree (s_floor s)) (s_win s) W blk))
+      | Some blk => (s, OutV (vf tree (idx_of tree (s_floor s)) (s_win s) W blk))
       | None => (s, OutBad)
       end
   | OAccept b =>
@@ -192,10 +199,10 @@ Definition step (tree : index) (W : Z) (s : sys) (o : op) : sys * out :=
       end
   end.
 
-Fixpoint run (tree : index) (W : Z) (s : sys) (ops : list op) : list out :=
+Fixpoint run (vf : vfun) (tree : index) (W : Z) (s : sys) (ops : list op) : list out :=
   match ops with
   | [] => []
-  | o :: ops' => let r := step tree W s o in snd r :: run tree W (fst r) ops'
+  | o :: ops' => let r := step vf tree W s o in snd r :: run vf tree W (fst r) ops'
   end.
 
 (* initial system: window built at genesis *)
